@@ -16,7 +16,7 @@ CLASSES = ["Signal", "RadioSignal", "IntensitySignal", "FullStokesSignal", "Base
 RADIO = CLASSES[1:]
 BASEBAND = ["BasebandSignal", "DualPolarizationSignal"]
 DT = {"f4": np.float32, "f8": np.float64, "c8": np.complex64, "c16": np.complex128, "i8": np.int64,
-      "i4": np.int32, "u1": np.uint8, "f2": np.float16, "i2": np.int16, "b1": np.bool_}
+      "i4": np.int32, "u1": np.uint8, "f2": np.float16, "i2": np.int16, "b1": np.bool_, "ld": np.longdouble, "cld": np.clongdouble}
 CLASS_DTYPES = {
     "Signal": ["f4", "f8", "c8", "c16", "i8"],
     "RadioSignal": ["f4", "f8", "c8", "c16", "i8"],
@@ -418,12 +418,15 @@ def user_subclass(cls, kind=True):
     """what a user of the library may well write: `class MySignal(pb.BasebandSignal): ...` with a method of their own (kind True), or with a
     constructor of their own whose options are ordinary parameters with defaults ("ctor").  The classes live in this module's namespace
     (defined at import, below) so that instances can be pickled into worker processes."""
-    kind = "ctor" if kind == "ctor" else True
+    kind = kind if kind in ("ctor", "axes") and (kind != "axes" or cls.__name__ == "Signal") else True
     if (cls, kind) not in _SUBCLASSES:
-        name = ("My" if kind is True else "MyCtor") + cls.__name__
+        name = {True: "My", "ctor": "MyCtor", "axes": "MyAxes"}[kind] + cls.__name__
         body = {"__module__": __name__, "__qualname__": name, "describe": _describe}
         if kind == "ctor":
             body["__init__"] = _ctor_with_defaults(cls)
+        if kind == "axes":
+            # folded data: the user names the axes (as tests/test_signal.py::ArbitrarySignal does); axis 0 is still the time axis
+            body["_axes_labels"] = {"subint": 0, "bin": 1}
         sub = type(name, (cls,), body)
         globals()[name] = sub
         _SUBCLASSES[(cls, kind)] = sub
@@ -457,6 +460,24 @@ def _define_user_subclasses():
     for name in CLASSES:
         user_subclass(getattr(pb, name))
         user_subclass(getattr(pb, name), "ctor")
+    user_subclass(pb.Signal, "axes")
+
+    # an oversampled filterbank: the channels are spaced by 27/32 of the sample rate (BasebandSignal hard-wires chan_bw = sample_rate, so the
+    # user overrides the public accessor) ...
+    globals()["MyOversampledSignal"] = type("MyOversampledSignal", (pb.BasebandSignal,), {
+        "__module__": __name__, "__qualname__": "MyOversampledSignal", "chan_bw": property(lambda self: self.sample_rate * (27 / 32), lambda self, value: pb.BasebandSignal.chan_bw.fset(self, value))})
+
+    # ... and a class that keeps its centre frequency in a field of its own (getter and setter overridden together)
+    def _get_cf(self):
+        return self._sky_freq
+
+    def _set_cf(self, value):
+        pb.RadioSignal.center_freq.fset(self, value)  # the library's validation
+        self._sky_freq = self._center_freq
+        self._center_freq = None
+
+    globals()["MyOwnCentreSignal"] = type("MyOwnCentreSignal", (pb.RadioSignal,), {
+        "__module__": __name__, "__qualname__": "MyOwnCentreSignal", "center_freq": property(_get_cf, _set_cf)})
     import astropy.units as u
 
     globals()["MyPhase"] = type("MyPhase", (pb.Phase,), {"__module__": __name__, "__qualname__": "MyPhase", "turns": lambda self: self["int"]})
